@@ -55,15 +55,21 @@ def instances(tier, rng):
             if cls == "kFlowDecomp":
                 routes.append({"sws": sorted(set(u["pweights"])) + list(u["pweights"])})   # given-weights model
                 routes.append({"k": kp + 1})
+                # the given-weights model on node-weighted input, with an ignored element, with heavier spare weights
+                gw = sorted(set(u["pweights"])) + list(u["pweights"]) + [max(u["pweights"]) + 2]
+                routes.append({"mode": "node", "sws": gw})
+                routes.append({"sws": gw, "ign": [list(rng.choice(u["edges"]))]})
+                routes.append({"mode": "node", "sws": gw, "ign": [rng.choice(u["nodes"])]})
             else:
                 routes.append({"opt": {"optimize_with_guessed_weights": True}})
+                routes.append({"mode": "node", "opt": {"optimize_with_guessed_weights": True}})
             e = rng.choice(u["edges"])
             routes.append({"ign": [list(e)], "opt": {"optimize_with_greedy": False}})
             p = rng.choice(u["proutes"])
             es = C.route_edges(p)
             routes.append({"cons": [es[:2]]})
             routes.append({"cons": [es[-1:]], "opt": {"optimize_with_greedy": False}})
-            for cfg in (routes if not quick else routes[:5] + rng.sample(routes[5:], 4)):
+            for cfg in (routes if not quick else routes[:5] + rng.sample(routes[5:], 5)):
                 r = C.base(u, cls, cfg.get("mode", "edge"))
                 r["wt"] = "int"
                 if cls == "kFlowDecomp":
@@ -89,6 +95,7 @@ def instances(tier, rng):
             ]
             if cls == "MinFlowDecompCycles":
                 routes.append({"opt": {"optimize_with_guessed_weights": True}})
+                routes.append({"mode": "node", "opt": {"optimize_with_guessed_weights": True}})
             e = rng.choice(u["edges"])
             routes.append({"ign": [list(e)]})
             es = C.route_edges(rng.choice(u["proutes"]))
